@@ -847,6 +847,7 @@ def gen_views(repo):
         for m in ("max", "min"):
             fn = need(sav, m)
             r = red_single(fn)
+            guard = "false"
             if r is not None:
                 routes = (r, r, r)
             else:
@@ -859,12 +860,16 @@ def gen_views(repo):
                     raise Untranslatable(f"ScaledArrayView.{m}: unknown reduction expression")
                 if same_expr(b[0].test, "self._is_multi_element() or args or kwargs"):
                     routes = (first, first, second)
+                elif (same_expr(b[0].test, "self._is_multi_element() or args or kwargs or (not np.all(self.scale > 0))")
+                      or same_expr(b[0].test, "self._is_multi_element() or args or kwargs or (not (self.scale > 0).all())")):
+                    routes, guard = (first, first, second), "true"      # the grid route only for scales that keep the order
                 elif same_expr(b[0].test, "self._is_multi_element()"):
                     routes = (first, second, second)
                 else:
                     raise Untranslatable(f"ScaledArrayView.{m}: test {ast.unparse(b[0].test)}")
             out += (f"Definition sav_{m} : red_route * red_route * red_route := ({routes[0]}, {routes[1]}, {routes[2]}).\n"
-                    "   (* (multi-element, one element per point with arguments, one element per point without) *)\n")
+                    "   (* (multi-element, one element per point with arguments, one element per point without) *)\n"
+                    f"Definition sav_{m}_grid_guard : bool := {guard}.   (* the last route is taken only when np.all(self.scale > 0) *)\n")
         return out
     o.add("sav_max_min", sav_red)
 
